@@ -256,21 +256,27 @@ def writeParameter (u : Option String) (p : LParam) : XmlNode :=
      (match p.shortDesc with | some s => [("shortDescription", s)] | none => []))
     (if strTruthy p.longDesc then [mkEl u "LongDescription" [] [] p.longDesc] else [])
 
+/-- One entry of a container's `EntryList`. -/
+def writeEntry (u : Option String) : LEntry → XmlNode
+  | .param n => mkEl u "ParameterRefEntry" [("parameterRef", n)] []
+  | .cont n => mkEl u "ContainerRefEntry" [("containerRef", n)] []
+
+/-- The element inside `RestrictionCriteria`: the single criterion, or a `ComparisonList` of several. -/
+def writeRestrictions (u : Option String) : List Criterion → XmlNode
+  | [x] => writeCriterion u x
+  | cs => mkEl u "ComparisonList" [] (cs.map (writeCriterion u))
+
 def writeContainer (u : Option String) (c : LContainer) : LoadM XmlNode := do
   let attrs := [("abstract", pyBool c.abstract), ("name", c.name)] ++
     (match c.shortDesc with | some s => [("shortDescription", s)] | none => [])
   let ld := if strTruthy c.longDesc then [mkEl u "LongDescription" [] [] c.longDesc] else []
   if !c.criteria.isEmpty && !(strTruthy c.base) then throw .value
-  let restrictions := match c.criteria with
-    | [x] => writeCriterion u x
-    | cs => mkEl u "ComparisonList" [] (cs.map (writeCriterion u))
+  let restrictions := writeRestrictions u c.criteria
   let baseEl := if strTruthy c.base then
       [mkEl u "BaseContainer" [("containerRef", c.base.getD "")]
         (if c.criteria.isEmpty then [] else [mkEl u "RestrictionCriteria" [] [restrictions]])]
     else []
-  let entries := c.entries.map (fun e => match e with
-    | .param n => mkEl u "ParameterRefEntry" [("parameterRef", n)] []
-    | .cont n => mkEl u "ContainerRefEntry" [("containerRef", n)] [])
+  let entries := c.entries.map (writeEntry u)
   pure (mkEl u "SequenceContainer" attrs (ld ++ baseEl ++ [mkEl u "EntryList" [] entries]))
 
 /-- `XtcePacketDefinition.to_xml_tree()` (the header date is the definition's own; `now()` is never modelled). -/
